@@ -190,7 +190,13 @@ impl Stream for RtrListener {
                     this.server_metrics,
                 ) {
                     Ok(stream) => Poll::Ready(Some(Ok(stream))),
-                    Err(_) => Poll::Pending,
+                    Err(_) => {
+                        // We dropped this connection but need to keep
+                        // accepting. Since nothing has registered the
+                        // waker, we need to wake ourselves.
+                        ctx.waker().wake_by_ref();
+                        Poll::Pending
+                    }
                 }
             }
             Poll::Ready(Err(err)) => {
